@@ -156,12 +156,14 @@ V_ENSURES(V_RET == 0 && g_qit->removed && g_qit->q->len == V_OLD(g_qit->q->len) 
 
 /* ---- abstract map / list as far as mod.c needs them --------------------------------------------------------------- */
 static inline bool v_map_ok_fn(const struct _map *m) { return m != NULL && V_RW_OK(m, sizeof(struct _map)) && m->len < ((size_t)1 << 60); }
+#ifndef V_OWN_M_MAP_REMOVE
 V_CONTRACT
 int m_map_remove(m_map_t *m, const char *key)
 V_REQUIRES(v_map_ok_fn(m) && key != NULL)
 V_ASSIGNS(m->len, g.maprm_calls)
 V_ENSURES(V_RET == g_maprm_ret && g.maprm_calls == V_OLD(g.maprm_calls) + 1 && m->len == V_OLD(m->len) - ((V_RET == 0) ? 1 : 0))
 ;
+#endif
 V_CONTRACT
 ssize_t m_map_len(const m_map_t *m)
 V_REQUIRES(m == NULL || v_map_ok_fn(m))
